@@ -21,7 +21,7 @@ EXPLANATION = (
     'scope-over-flag precedence in the three predicates; (f) deep seal. '
     'Decides the shape of the code for all inputs; does not decide that the '
     'tree is bit-identical after a refused call.')
-FLOORS = {'C08.a': 10, 'C08.b': 10, 'C08.c': 4, 'C08.d': 4, 'C08.e': 1,
+FLOORS = {'C08.k': 1, 'C08.j': 2, 'C08.a': 10, 'C08.b': 10, 'C08.c': 4, 'C08.d': 4, 'C08.e': 1,
           'C08.f': 1, 'C08.g': 1, 'C08.h': 2}
 
 FILES = ['pyglove/core/symbolic/base.py', 'pyglove/core/symbolic/list.py',
@@ -652,8 +652,33 @@ def rule_g(ctx):
            fs.loc, '; '.join(problems))
 
 
+def rule_j(ctx):
+  """The scoped overrides (as_sealed, allow_writable_accessors) "take precedence
+  ... exactly as documented" only if the scope manager behind them is sound: it
+  saves what it sees WHEN IT IS ENTERED and puts exactly that back on every way
+  out.  The generator managers of utils/thread_local.py are therefore decided
+  here as well, with the scope rules of C17 (a: inverse on every exit, b: the
+  restored value is a read taken at entry - not one captured when the manager
+  object was created, c: per-thread storage)."""
+  from sa.rules import c17
+  idx = ctx.index
+  m = idx.by_relpath.get('pyglove/core/utils/thread_local.py')
+  if m is None:
+    raise AnalysisError('utils/thread_local.py vanished')
+  before = len(ctx.obs)
+  n = 0
+  for f in sorted(m.funcs.values(), key=lambda x: x.fq):
+    if any(d.endswith('contextmanager') for d in A.decorator_names(f.node)):
+      n += 1
+      c17.analyse_generator(ctx, f)
+  for o in ctx.obs[before:]:
+    o.rule = 'C08.j'
+  if n < 1:
+    raise AnalysisError('no scope manager found in utils/thread_local.py')
+
+
 def run(ctx):
-  ctx.consult(*FILES)
+  ctx.consult(*FILES, 'pyglove/core/utils/thread_local.py', 'pyglove/core/symbolic/functor.py')
   rule_a(ctx)
   rule_g(ctx)
   rule_b(ctx)
@@ -662,5 +687,8 @@ def run(ctx):
   rule_e(ctx)
   rule_f(ctx)
   rule_h(ctx)
+  rule_j(ctx)
+  from sa.rules import c18 as _c18
+  _c18.rule_k(ctx, 'C08.k')   # a refused `del functor.arg` leaves the functor as it was
   ctx.assume('user subclasses outside the repository are out of scope')
   ctx.assume('Object seal state mirrors its attribute container (checked by C08.f)')
